@@ -1104,7 +1104,7 @@ def model_checks(ctx):
             fam = name.split("-")[1]
             want = {"nice": "SetNice", "ionice": "SetIo", "affinity": "SetAff", "rlimit": "SetRlim"}[fam]
             if not r.violated and not r.coverage.get(want, (0, 0))[1]:
-                raise core.Machinery("vacuity: action %s never taken in %s" % (want, name))
+                core.vacuity("action %s never taken in %s" % (want, name))
     rp = res["regression-psutil700-eligible"]
     if rp.violated != "C18_ImplAllowed":
         raise core.Machinery("the specification no longer exposes psutil 7.0.0's _get_eligible_cpus "
@@ -1537,7 +1537,7 @@ def need(ctx, what, tags, req):
         if ctx.violations:
             ctx.notes.append("%s never exercised %s" % (what, missing))
             return
-        raise core.Machinery("vacuity: %s never exercised %s" % (what, missing))
+        core.vacuity("%s never exercised %s" % (what, missing))
 
 
 REQ_SIM = ["nice_get:get:ok", "nice_set:valid:ok", "nice_set:valid:denied", "nice_set:out-of-range:",
